@@ -63,7 +63,7 @@ pub async fn read_to_end_or_max(
     // This is safe because of the trailing unsafe block.
     unsafe { buffer.set_len(buffer.capacity()) };
     if buffer.capacity() == buffer.len() {
-        reserve(0, buffer);
+        reserve(read, buffer);
     }
     loop {
         match reader.read(&mut buffer[read..]).await.map_err(|err| {
